@@ -38,6 +38,18 @@ def generate(ctx):
                "compensate": comp, "frequency": fmax, "shape": list(shape), "online": rng.random() < 0.4,
                "module": rng.random() < 0.5, "seed": rng.randrange(1 << 31),
                "zeros": rng.choice(["some", "some", "all", "none"]), "ones": rng.random() < 0.6}
+    yield from _saturated(rng, 400 if ctx.tier == "thorough" else 12)
+
+
+def _saturated(rng, n):
+    """the refractory encoder at the edge of its documented domain (frequency * refrac just under 1000, compensation on,
+    full intensity): the re-drawn intervals are the refractory period plus almost nothing, for very many spikes"""
+    for _ in range(n):
+        dt = rng.choice([1.0, 0.5])
+        rsteps = rng.choice([2, 3, 4, 5])
+        yield {"kind": "exp_interval", "dt": dt, "steps": 400, "refrac_steps": rsteps, "compensate": True,
+               "frequency": rng.choice([0.9995, 0.999, 0.9999]) * 1000.0 / (rsteps * dt), "shape": [256], "online": rng.random() < 0.7,
+               "module": rng.random() < 0.5, "seed": rng.randrange(1 << 31), "zeros": "none", "ones": "all"}
 
 
 def _inputs(desc):
@@ -51,7 +63,9 @@ def _inputs(desc):
         flat[0] = 0.0
         if flat.numel() > 2:
             flat[2] = 0.0
-    if desc["ones"] and flat.numel() > 1 and desc["zeros"] != "all":
+    if desc["ones"] == "all":
+        flat.fill_(1.0)
+    elif desc["ones"] and flat.numel() > 1 and desc["zeros"] != "all":
         flat[1] = 1.0
     return x
 
